@@ -653,6 +653,10 @@ func AccessPath(v ssa.Value) string {
 		if v.Op == token.MUL {
 			return AccessPath(v.X)
 		}
+	case *ssa.IndexAddr:
+		return AccessPath(v.X) + "[]"
+	case *ssa.Index:
+		return AccessPath(v.X) + "[]"
 	case *ssa.Parameter:
 		return v.Name()
 	case *ssa.FreeVar:
